@@ -93,6 +93,7 @@ type World struct {
 	keys   map[string]sdk.StoreKey
 	others []string // names of non-akash, non-bank stores (asserted unchanged)
 	Escrow sdk.AccAddress
+	slot   int // journal slot of the worker that owns this instance (journal.go)
 }
 
 func init() {
@@ -134,7 +135,7 @@ func NewWorld(gp GenesisParams) *World {
 	a.InitChain(abci.RequestInitChain{ChainId: "verif", Validators: []abci.ValidatorUpdate{}, AppStateBytes: state})
 	a.Commit()
 
-	w := &World{App: a, Cast: cast, GP: gp, keys: map[string]sdk.StoreKey{}}
+	w := &World{App: a, Cast: cast, GP: gp, keys: map[string]sdk.StoreKey{}, slot: journalSlot()}
 	w.root = a.NewUncachedContext(false, tmproto.Header{Height: gp.StartHeight, ChainID: "verif"})
 	for _, n := range append(append([]string{}, akashStores...), "bank") {
 		w.keys[n] = a.GetKey(n)
@@ -167,6 +168,7 @@ type TxResult struct {
 	Panic  bool
 	Events []abci.Event
 	Data   []byte
+	Gas    uint64 // gas consumed by the handler (part of the DeliverTx response, hence of the results hash)
 }
 
 var routes = map[string]string{}
@@ -233,6 +235,9 @@ func (w *World) ExecGas(st State, msg sdk.Msg, meter sdk.GasMeter) (res TxResult
 	defer func() {
 		if r := recover(); r != nil {
 			res = TxResult{Err: fmt.Sprintf("panic: %v", r), Panic: true}
+			if meter != nil {
+				res.Gas = meter.GasConsumed()
+			}
 		}
 	}()
 	// a real transaction reaches the handler after a protobuf round trip (nil vs empty slices etc.)
@@ -254,15 +259,16 @@ func (w *World) ExecGas(st State, msg sdk.Msg, meter sdk.GasMeter) (res TxResult
 	}
 	cctx, write := st.Ctx.CacheContext()
 	cctx = cctx.WithEventManager(sdk.NewEventManager())
-	if meter != nil {
-		cctx = cctx.WithGasMeter(meter)
+	if meter == nil {
+		meter = sdk.NewInfiniteGasMeter()
 	}
+	cctx = cctx.WithGasMeter(meter)
 	r, err := h(cctx, msg)
 	if err != nil {
-		return TxResult{Err: err.Error()}
+		return TxResult{Err: err.Error(), Gas: meter.GasConsumed()}
 	}
 	write()
-	out := TxResult{OK: true}
+	out := TxResult{OK: true, Gas: meter.GasConsumed()}
 	if r != nil {
 		out.Events = r.Events
 		out.Data = r.Data
